@@ -406,6 +406,8 @@ class Interp:
         if z3.is_false(c):
             yield st, False
             return
+        if self._has_internal(c):
+            c = cond    # keep solver-internal symbols (seq.nth_i/_u) out of the queries
         st_t = st.fork()
         st_t.pc.append(c)
         if self.feasible(st_t.pc):
@@ -414,6 +416,25 @@ class Interp:
         st_f.pc.append(z3.Not(c))
         if self.feasible(st_f.pc):
             yield st_f, False
+
+    _internal_cache = {}
+
+    def snoc_lemma(self, st, e):
+        """instance of the sequence fact  len(s) >= 1  =>  s == s[:-1] ++ [s[-1]]  (valid in the
+        theory of sequences; checked once per run by lemma_selfcheck) - helps the solvers"""
+        n = z3.Length(e)
+        st.pc.append(z3.Implies(n >= 1, e == z3.Concat(z3.Extract(e, 0, n - 1), z3.Unit(e[n - 1]))))
+        self.trusted.add('lemma instance: s == s[:-1] ++ [s[-1]] for non-empty sequences (valid in the sequence theory; self-checked)')
+
+    def _has_internal(self, e):
+        k = e.get_id()
+        r = self._internal_cache.get(k)
+        if r is None:
+            r = 'nth_' in e.sexpr()
+            if len(self._internal_cache) > 200000:
+                self._internal_cache.clear()
+            self._internal_cache[k] = r
+        return r
 
     def oblige(self, st, kind, goal, node=None, note='', name=None):
         site = stmt_text(node) if node is not None else ''
@@ -532,6 +553,13 @@ class Interp:
                 yield from self.force(st1, v.a if b else v.b)
         else:
             yield st, v
+
+    def _has_unbound(self, v):
+        if isinstance(v, SUnbound):
+            return True
+        if isinstance(v, SIte):
+            return self._has_unbound(v.a) or self._has_unbound(v.b)
+        return False
 
     def merge_values(self, st, c, a, b):
         """value that is `a` when c else `b`"""
@@ -665,6 +693,13 @@ class Interp:
             v = env[name]
             if v is UNBOUND:
                 yield st, self.exc('UnboundLocalError', node)
+            elif isinstance(v, SIte) and self._has_unbound(v):
+                for st1, v1 in self.force(st, v):
+                    if isinstance(v1, SUnbound):
+                        yield st1, self.exc('UnboundLocalError', node)
+                    else:
+                        st1.env[name] = v1
+                        yield st1, v1
             else:
                 yield st, v
             return
@@ -1016,6 +1051,12 @@ class Interp:
         raise EngineLimit('in on %r' % (container,))
 
     def type_ok(self, v, t):
+        if isinstance(v, SIte):
+            return self.type_ok(v.a, t) and self.type_ok(v.b, t)
+        if isinstance(t, Opt):
+            return isinstance(v, SNone) or self.type_ok(v, t.t)
+        if t is NoneT:
+            return isinstance(v, SNone)
         if t is Int:
             return isinstance(v, (SInt, SBool))
         if t is Str:
@@ -2038,12 +2079,17 @@ class Interp:
             if isinstance(o, HSeq):
                 n = z3.Length(o.e)
                 j, ok = self.norm_index(idx, n)
+                last = isinstance(idx, SInt) and idx.conc() == -1
                 for st1, b in self.split(st, ok):
                     if not b:
                         yield st1, ('raise', SExc('IndexError', site=stmt_text(node)))
                         continue
                     o2 = st1.mut(base.addr)
-                    o2.e = z3.Concat(z3.Extract(o.e, 0, j), z3.Extract(o.e, j + 1, n - j - 1))
+                    if last:
+                        self.snoc_lemma(st1, o.e)
+                        o2.e = z3.Extract(o.e, 0, n - 1)
+                    else:
+                        o2.e = z3.Concat(z3.Extract(o.e, 0, j), z3.Extract(o.e, j + 1, n - j - 1))
                     yield st1, NORMAL
                 return
         raise EngineLimit('del on %r' % (base,))
@@ -2106,13 +2152,15 @@ class Interp:
         out = sa.fork()
         out.pc = list(sa.pc[:n0])
         for fa, fb, fo in zip(sa.frames, sb.frames, out.frames):
-            if set(fa) != set(fb):
-                return None
-            for k in fa:
-                x, y = fa[k], fb[k]
+            for k in set(fa) | set(fb):
+                x, y = fa.get(k, UNBOUND), fb.get(k, UNBOUND)
                 if x is y:
                     continue
-                if x is UNBOUND or y is UNBOUND or not isinstance(x, V) or not isinstance(y, V):
+                if k.startswith('__'):
+                    return None
+                x = UNB if x is UNBOUND else x
+                y = UNB if y is UNBOUND else y
+                if not isinstance(x, V) or not isinstance(y, V):
                     return None
                 fo[k] = self.merge_values(out, t, x, y)
         for addr in sa.heap:
